@@ -6,6 +6,7 @@ import time
 import math
 import binascii
 from copy import copy
+from fractions import Fraction
 import datetime
 
 from ..parser import EXTENSION_MARKER
@@ -368,7 +369,12 @@ def decode_real_binary(control, data):
             'Unsupported binary REAL control word 0x{:02x}.'.format(control))
 
     mantissa = int(binascii.hexlify(data[offset:]), 16)
-    decoded = float(mantissa * 2 ** exponent)
+
+    if exponent >= 0:
+        decoded = float(mantissa * 2 ** exponent)
+    else:
+        # Exact, 2 ** exponent as a float underflows below 2 ** -1074.
+        decoded = float(Fraction(mantissa, 2 ** -exponent))
 
     if control & 0x40:
         decoded *= -1
